@@ -7,6 +7,7 @@ bytes  = Spec.C04Sem.encode_section through the driver (no Python encoder of DWA
 spec   = Spec.C04Spec.expect_* / Spec.C04Sem (relations, resolve, ref_target);
 model  = Model.C04Model (iter_CUs/iter_TUs, iter_DIEs, iter_children, get_parent, die_from_attribute, values);
 impl   = DWARFInfo built directly over BytesIO sections."""
+import gc
 import io
 
 CLAIMED = True
@@ -410,7 +411,7 @@ def unit_abs(u):
 def world_abs(w):
     return [w['le'], [unit_abs(u) for u in w['info']], [unit_abs(u) for u in w['types']], w['abbrev'],
             w['str'], w['line_str'], w['str_offsets'], w['addr'], w['loclists'], w['rnglists'], w.get('types_absent', 0),
-            w.get('history', [])]
+            w.get('history', []), w.get('env', ['bytesio', 0])]
 
 
 def rnd_bytes(rng, n, nonzero=False):
@@ -690,11 +691,22 @@ def one_form_world(g, ctx, cfg, form):
     vals[5] = ['u', 0xa5]
     u['root'] = {'decl': decl, 'vals': vals, 'kids': [], 'term': b'\0'}
     w['info'].append(u)
-    w['abbrev'] = ctx.driver.one(['enc_atable', table_abs(table)])
+    w['_table'] = table        # gen() encodes the tables of all one_form cases in one driver batch
     return w
 
 
 # ------------------------------------------------------------------ case generation
+def _with_env(rng, w, p_drop):
+    """the environment of the case: the kind of stream every section is handed over as (tools/lib/streams.py; all kinds
+    present the same bytes) and whether owners are dropped while their children are still queried:
+    0 no; 1 the DWARFInfo is deleted (+ gc.collect()) once the unit objects have been obtained from it;
+    2 additionally each unit object is deleted once its entries have been obtained"""
+    from tools.lib.streams import draw_kind
+    # real files cost ~1 ms per section stream and a case opens dozens: mostly BytesIO for the many one-entry cases
+    w['env'] = [draw_kind(rng, 0.8 if p_drop < 0.2 else 0.55), rng.choice([1, 2]) if rng.random() < p_drop else 0]
+    return w
+
+
 def gen(ctx):
     cls = ctx.driver.batch([['std_class', list(c), f] for c in CONFIGS for f in STD_FORMS])
     classes = {}
@@ -706,9 +718,10 @@ def gen(ctx):
     g = Gen(ctx, classes)
     cases = []
     cfgs = CONFIGS if ctx.tier == 'thorough' else CONFIGS
-    for c in cfgs:
-        for f in STD_FORMS:
-            cases.append(('one_form', world_abs(one_form_world(g, ctx, c, f))))
+    ofw = [_with_env(ctx.rng, one_form_world(g, ctx, c, f), 0.08) for c in cfgs for f in STD_FORMS]
+    for w, enc in zip(ofw, ctx.driver.batch([['enc_atable', table_abs(w['_table'])] for w in ofw])):
+        w['abbrev'] = enc
+        cases.append(('one_form', world_abs(w)))
     n = ctx.scale(120, 2500)
     for i in range(n):
         r = ctx.rng.random()
@@ -718,14 +731,14 @@ def gen(ctx):
             w = gen_world(g, ctx, ctx.rng.randint(1, 3), ctx.rng.randint(1, 2), ctx.rng.choice([3, 12]))
         else:
             w = gen_world(g, ctx, ctx.rng.randint(2, 5), ctx.rng.choice([0, 0, 1, 2]), ctx.rng.choice([3, 10, 40, ctx.scale(60, 150)]))
-        cases.append(('world', world_abs(w)))
+        cases.append(('world', world_abs(_with_env(ctx.rng, w, 0.45))))
     # type-signature references: DWARF 5 type units in .debug_info, with .debug_types absent / empty / holding v4 units
     g.prefer_sig8 = True
     for state in ('absent', 'empty', 'tus'):
         for _ in range(ctx.scale(6, 60)):
             w = gen_world(g, ctx, ctx.rng.randint(2, 4), ctx.rng.randint(1, 2) if state == 'tus' else 0,
                           ctx.rng.choice([3, 10]), types_state=state, v5_type_units=ctx.rng.randint(1, 2))
-            cases.append(('sig8_world', world_abs(w)))
+            cases.append(('sig8_world', world_abs(_with_env(ctx.rng, w, 0.45))))
     g.prefer_sig8 = False
     return cases
 
@@ -759,11 +772,14 @@ def _nm(x):
     return x if isinstance(x, (str, int)) else ['py', type(x).__name__]
 
 
+_OPEN = [lambda data, kind: io.BytesIO(data)]      # how section streams are opened: set per evaluate() to Streams().open
+
+
 def _mk_dwarfinfo(secs):
     from elftools.dwarf.dwarfinfo import DWARFInfo, DebugSectionDescriptor, DwarfConfig
     def D(name, data):
-        return DebugSectionDescriptor(io.BytesIO(data), name, None, len(data), 0)
-    le, info, abbrev, types, str_, line_str, str_offsets, addr, loclists, rnglists = secs
+        return DebugSectionDescriptor(_OPEN[0](data, secs[10] if len(secs) > 10 else 'bytesio'), name, None, len(data), 0)
+    le, info, abbrev, types, str_, line_str, str_offsets, addr, loclists, rnglists = secs[:10]
     return DWARFInfo(
         config=DwarfConfig(little_endian=bool(le), machine_arch='x64', default_address_size=8),
         debug_info_sec=D('.debug_info', info), debug_aranges_sec=None, debug_abbrev_sec=D('.debug_abbrev', abbrev),
@@ -798,18 +814,26 @@ def _impl_header(cu, is_tu):
             h['debug_abbrev_offset'], h['address_size'], extra, cu.cu_offset, cu.cu_die_offset, cu.size]
 
 
-def _impl_unit(di_factory, idx, cu, is_tu):
+def _impl_unit(di_factory, idx, box, is_tu, drop=0):
+    """box: one-element list holding the unit (so that this function owns the only reference when drop == 2)"""
+    cu = box.pop()
     hdr = _impl_header(cu, is_tu)
     try:
         dies = list(cu.iter_DIEs())
     except Exception as e:
         return [hdr, _err(e)]
+    if drop >= 2:
+        del cu                                        # the entries are all that is left of the unit
+        gc.collect()
     # parents: a fresh DWARFInfo, entries fetched by offset in reverse order, so that
     # _search_ancestor_offspring (not the iteration side effect) answers
     parents = {}
     try:
         di2 = di_factory()
         cu2 = list(di2.iter_TUs() if is_tu else di2.iter_CUs())[idx]
+        if drop:
+            del di2
+            gc.collect()
     except Exception as e:
         cu2 = None
         perr = _err(e)
@@ -852,8 +876,9 @@ def _impl_unit(di_factory, idx, cu, is_tu):
     return [hdr, rels]
 
 
-def impl_report(secs, warm_offsets=()):
-    """warm_offsets: .debug_info unit offsets fetched with get_CU_at on every DWARFInfo object before it is used"""
+def impl_report(secs, warm_offsets=(), drop=0):
+    """warm_offsets: .debug_info unit offsets fetched with get_CU_at on every DWARFInfo object before it is used;
+    drop: owners deleted while their children are still queried (see _with_env)"""
     def factory():
         di = _mk_dwarfinfo(secs)
         for off in warm_offsets:
@@ -867,7 +892,16 @@ def impl_report(secs, warm_offsets=()):
         except Exception as e:
             out.append(_err(e))
             continue
-        out.append([_impl_unit(factory, i, cu, is_tu) for i, cu in enumerate(units)])
+        if drop:
+            del di                                    # what a helper returning list(di.iter_CUs()) leaves behind
+            gc.collect()
+        res = []
+        for i in range(len(units)):
+            box = [units[i]]
+            if drop:
+                units[i] = None
+            res.append(_impl_unit(factory, i, box, is_tu, drop))
+        out.append(res)
     return out
 
 
@@ -976,10 +1010,10 @@ def classify(impl, spec, hint=None):
                 return '%s/entry-count%s' % (sec, sfx), (len(iu[1]), len(su[1]))
     if len(impl) > 3 and len(spec) > 3 and impl[3] != spec[3]:
         if _is_err(impl[3]):
-            return 'after-get_CU_at/raises-%s' % impl[3][1], (impl[3], '...')
+            return 'after-history/raises-%s' % impl[3][1], (impl[3], '...')
         if impl[:2] == spec[:2] and len(impl[3]) == 2 and len(spec[3]) == 2:
             k, d = classify(impl[3], spec[3], hint)
-            return 'after-get_CU_at/' + str(k), d
+            return 'after-history/' + str(k), d
     if len(impl) > 2 and len(spec) > 2 and impl[2] != spec[2]:
         for ie, se in zip(impl[2], spec[2]):
             for f, i in (('get_DIE_by_sig8', 1), ('get_TU_by_sig8', 2)):
@@ -991,7 +1025,26 @@ def classify(impl, spec, hint=None):
 
 
 def evaluate(ctx, cases):
+    from tools.lib.streams import Streams, KINDS
+    S = Streams(prefix='pv-c04-streams-')
+    saved = _OPEN[0]
+    _OPEN[0] = lambda data, kind: S.open(data, kind if kind in KINDS else 'bytesio')
+    # the drop-owner steps call gc.collect(); the harness' own long-lived data (cases, recorded answers) is kept out of
+    # those collections (gc.freeze) so that each one only looks at the objects of the case at hand
+    gc.collect()
+    gc.freeze()
+    try:
+        _evaluate(ctx, cases, S)
+    finally:
+        _OPEN[0] = saved
+        S.close()
+        gc.unfreeze()
+        gc.collect()
+
+
+def _evaluate(ctx, cases, S):
     drv = ctx.driver
+    ncase = [0]
     worlds = [a for _, a in cases]
     secs = drv.batch([['sections', w] for w in worlds])
     wfs = drv.batch([['wf', w] for w in worlds])
@@ -1003,7 +1056,9 @@ def evaluate(ctx, cases):
     sig_answers = iter(drv.batch([['sig8', w, sg] for w, sgs in zip(worlds, sigs_of) for sg in sgs]))
     for (kind, w), (info, types), wf, spec, model, sigs in zip(cases, secs, wfs, specs, models, sigs_of):
         types_absent = bool(len(w) > 10 and w[10]) and not w[2]
-        all_secs = [w[0], info, w[3], None if types_absent else types, w[4], w[5], w[6], w[7], w[8], w[9]]
+        env = w[12] if len(w) > 12 and isinstance(w[12], list) and len(w[12]) == 2 else ['bytesio', 0]
+        stream_kind, drop = str(env[0]), (env[1] if env[1] in (0, 1, 2) else 0)
+        all_secs = [w[0], info, w[3], None if types_absent else types, w[4], w[5], w[6], w[7], w[8], w[9], stream_kind]
         impl = impl_report(all_secs)
         impl_s, spec_s, model_s = [], [], []
         for sg in sigs:
@@ -1015,16 +1070,24 @@ def evaluate(ctx, cases):
         # the same observations on objects that first served by-offset accesses; the answers do not depend on history
         # (the model has no cache: DESIGN 2.4), so spec and model repeat their own answer
         history = [i for i in (w[11] if len(w) > 11 else []) if isinstance(i, int) and 0 <= i < len(w[1])]
-        if history and isinstance(spec[0], list):
+        if (history or drop) and isinstance(spec[0], list):
             offs = [spec[0][i][0][7] for i in history]
             try:
-                impl_h = impl_report(all_secs, offs)
+                impl_h = impl_report(all_secs, offs, drop)
             except Exception as e:
                 impl_h = _err(e)
             impl, spec, model = impl + [impl_h], spec + [spec[:2]], model + [model[:2]]
         else:
             impl, spec, model = impl + [[]], spec + [[]], model + [[]]
         ctx.bump('history', 'none' if not history else ('last unit first' if history[0] == len(w[1]) - 1 and len(w[1]) > 1 else 'other'))
+        ctx.bump('stream_kind', stream_kind)
+        ctx.bump('drop_owner', ['no', 'DWARFInfo', 'DWARFInfo + unit'][drop])
+        ncase[0] += 1
+        if ncase[0] % 6 == 0:
+            S.drop_files()
+        if drop:
+            gc.collect()
+            gc.freeze()
         in_domain = all(wf)
         hint = None
         if kind == 'one_form':
@@ -1049,6 +1112,6 @@ def evaluate(ctx, cases):
             ctx.bump('form', hint)
         detail = None
         if d is not None:
-            detail = {'first_difference': list(d)}
+            detail = {'first_difference': list(d), 'stream_kind': stream_kind, 'drop_owner': drop}
         ctx.record(kind, w, impl=impl, spec=spec, model=model, in_domain=in_domain, nontrivial=nent >= 1,
                    key=key, detail=detail)
